@@ -574,8 +574,206 @@ fn fast_publisher(r: &mut Rng, res: &mut CaseResult) {
     res.sample = Some(json!({"scenario": "one tight-loop publisher against a stalled transport", "high_water": high, "bound": bound, "body": body_len}));
 }
 
+/// Several tight-loop publishers on channels of their own, a transport that takes data
+/// more slowly than they offer it: the buffer passes the high-water mark and drains below
+/// the low-water mark again and again. Every time it does, *every* blocked publisher has to
+/// get on - none of them may be left waiting for good while another one is served.
+fn competing_publishers(r: &mut Rng, res: &mut CaseResult) {
+    let nch = r.usize(2, 4);
+    let high = *r.pick(&[1usize << 20, 256 << 10]);
+    let low = *r.pick(&[0usize, high / 2]);
+    let bound = *r.pick(&[16usize, 16, 64]);
+    let body_len = *r.pick(&[256usize << 10, 1 << 20]);
+    let mut reflex = Reflex::default();
+    reflex.tune = (2047, 131072, 0);
+    let (mock, h) = new_mock(reflex);
+    let tuning = ConnectionTuning::default().mem_channel_bound(bound).buffered_writes_high_water(high).buffered_writes_low_water(low);
+    let open = run::spawn("open", move || Connection::insecure_open_stream(mock, session::default_opts(), tuning));
+    let mut conn = match open.join(W) {
+        J::Done(Ok(c)) => c,
+        _ => {
+            res.inconclusive("handshake");
+            return;
+        }
+    };
+    let mut chans = Vec::new();
+    for _ in 0..nch {
+        match conn.open_channel(None) {
+            Ok(c) => chans.push(c),
+            Err(e) => {
+                res.inconclusive(format!("open_channel: {}", ek(&e)));
+                return;
+            }
+        }
+    }
+    h.with(|st| st.budget = 0);
+    let stop = Arc::new(AtomicBool::new(false));
+    let counts: Vec<Arc<AtomicU64>> = (0..nch).map(|_| Arc::new(AtomicU64::new(0))).collect();
+    let mut threads = Vec::new();
+    for (i, ch) in chans.into_iter().enumerate() {
+        let stop2 = stop.clone();
+        let c2 = counts[i].clone();
+        threads.push(run::spawn("competing-publisher", move || {
+            let body = vec![0x40u8 + i as u8; body_len];
+            while !stop2.load(Ordering::Relaxed) {
+                if ch.basic_publish("", amiquip::Publish::new(&body, "competing")).is_err() {
+                    break;
+                }
+                c2.fetch_add(1, Ordering::Relaxed);
+            }
+            std::mem::forget(ch);
+        }));
+    }
+    // the transport takes 2 MiB every 4 ms (far less than the publishers offer)
+    let t0 = Instant::now();
+    let mut at_half: Vec<u64> = Vec::new();
+    let mut written_at_half = 0usize;
+    let window = Duration::from_millis(3000);
+    while t0.elapsed() < window {
+        h.with(|st| {
+            if st.budget < (8 << 20) {
+                st.budget += 2 << 20;
+            }
+        });
+        std::thread::sleep(Duration::from_millis(4));
+        if at_half.is_empty() && t0.elapsed() > window / 3 {
+            at_half = counts.iter().map(|c| c.load(Ordering::Relaxed)).collect();
+            written_at_half = h.out_len();
+        }
+    }
+    let at_end: Vec<u64> = counts.iter().map(|c| c.load(Ordering::Relaxed)).collect();
+    let written_late = h.out_len() - written_at_half;
+    res.obs("competing_publishers_written_mib", (h.out_len() >> 20) as u64);
+    res.obs("competing_publisher_sets", 1);
+    let late: Vec<u64> = at_end.iter().zip(at_half.iter()).map(|(e, a)| e - a).collect();
+    res.obs("competing_publishers_least_share_permille", if late.iter().sum::<u64>() > 0 { 1000 * late.iter().min().copied().unwrap_or(0) / late.iter().sum::<u64>() } else { 0 });
+    // the transport took a lot of data in the last two seconds - the buffer went below the
+    // low-water mark many times - and yet somebody did not get a single publish through
+    if written_late > 40 * (high + body_len) && late.iter().any(|n| *n == 0) {
+        res.violate(
+            "blocked_publisher_never_resumed",
+            format!(
+                "{} channels publishing {}-byte bodies, bound {}, high/low water {}/{}: in the last 2 s the transport took {} MiB, publishes accepted per channel in that time {:?} (since the start {:?})",
+                nch, body_len, bound, high, low, written_late >> 20, late, at_end
+            ),
+        );
+    } else if written_late <= 40 * (high + body_len) {
+        res.inconclusive(format!("the transport only took {} MiB in 2 s (machine overloaded?)", written_late >> 20));
+    }
+    stop.store(true, Ordering::Relaxed);
+    h.grant(usize::MAX);
+    for t in threads {
+        let _ = t.join(W * 3);
+    }
+    let tc = run::spawn("close", move || conn.close());
+    let _ = tc.join(W * 3);
+    let _ = run::take_panics();
+    res.sig = crate::rng::fnv_str(&format!("competing{}{}{}{}{}", nch, high, low, bound, body_len));
+    res.sample = Some(json!({"scenario": "tight-loop publishers on separate channels against a slow transport", "channels": nch, "high_water": high, "low_water": low, "bound": bound, "body": body_len, "accepted_per_channel": at_end}));
+}
+
+/// `Connection::close` while tight-loop publishers keep going against a transport that
+/// takes nothing: what they had been handed before goes out in front of the Close, but
+/// the close must not become the way around the bound - what is accepted from them after
+/// the close was called stays within what their queues hold, and the close completes once
+/// the transport takes data again.
+fn close_under_fire(r: &mut Rng, res: &mut CaseResult) {
+    let nch = r.usize(1, 3);
+    let high = *r.pick(&[1usize << 20, 64 << 10]);
+    let bound = *r.pick(&[16usize, 64]);
+    let body_len = *r.pick(&[1usize << 20, 100_000, 1000]);
+    let mut reflex = Reflex::default();
+    reflex.tune = (2047, 131072, 0);
+    let (mock, h) = new_mock(reflex);
+    let tuning = ConnectionTuning::default().mem_channel_bound(bound).buffered_writes_high_water(high).buffered_writes_low_water(0);
+    let open = run::spawn("open", move || Connection::insecure_open_stream(mock, session::default_opts(), tuning));
+    let mut conn = match open.join(W) {
+        J::Done(Ok(c)) => c,
+        _ => {
+            res.inconclusive("handshake");
+            return;
+        }
+    };
+    let mut chans = Vec::new();
+    for _ in 0..nch {
+        match conn.open_channel(None) {
+            Ok(c) => chans.push(c),
+            Err(e) => {
+                res.inconclusive(format!("open_channel: {}", ek(&e)));
+                return;
+            }
+        }
+    }
+    h.with(|st| st.budget = 0);
+    let accepted = Arc::new(AtomicU64::new(0));
+    let mut threads = Vec::new();
+    for ch in chans {
+        let acc2 = accepted.clone();
+        threads.push(run::spawn("publisher-under-close", move || {
+            let body = vec![0x43u8; body_len];
+            // (ends when the connection is closed)
+            for _ in 0..(768usize << 20) / body_len {
+                if ch.basic_publish("", amiquip::Publish::new(&body, "fire")).is_err() {
+                    break;
+                }
+                acc2.fetch_add(1, Ordering::Relaxed);
+            }
+            std::mem::forget(ch);
+        }));
+    }
+    // let them run into the back-pressure first
+    std::thread::sleep(Duration::from_millis(300));
+    let before_close = accepted.load(Ordering::Relaxed);
+    let tc = run::spawn("close", move || conn.close());
+    std::thread::sleep(Duration::from_millis(2500));
+    let after = accepted.load(Ordering::Relaxed) - before_close;
+    let after_bytes = after as usize * body_len;
+    res.obs("accepted_after_close_called_kib", (after_bytes >> 10) as u64);
+    res.obs("closes_under_fire", 1);
+    let allowed = nch * ((bound + 4) * 140_000 + 8 * body_len) + (8 << 20);
+    if after_bytes > allowed {
+        res.violate(
+            "publishers_never_blocked",
+            format!("{} tight-loop publishers (bodies of {} bytes, bound {}, high-water {}), transport taking nothing: {} MiB were accepted from them in the 2.5 s after Connection::close had been called; allowed about {} MiB", nch, body_len, bound, high, after_bytes >> 20, allowed >> 20),
+        );
+    }
+    h.grant(usize::MAX);
+    match tc.join(W * 3) {
+        J::Done(_) => {}
+        _ => res.violate("close_hangs_under_fire", format!("{} tight-loop publishers: Connection::close did not return within 60 s of the transport taking data again", nch)),
+    }
+    for t in threads {
+        let _ = t.join(W * 3);
+    }
+    let _ = run::take_panics();
+    res.sig = crate::rng::fnv_str(&format!("closefire{}{}{}{}", nch, high, bound, body_len));
+    res.sample = Some(json!({"scenario": "Connection::close while tight-loop publishers keep going, stalled transport", "channels": nch, "high_water": high, "bound": bound, "body": body_len, "accepted_after_close_bytes": after_bytes}));
+}
+
 pub fn run(rc: &mut RunCtx) {
     let seed = rc.seed;
+    for i in 0..rc.n(4, 16) {
+        let id = format!("close-under-fire:{}", i);
+        if !rc.mine(&id) {
+            continue;
+        }
+        rc.begin(&id);
+        let mut res = CaseResult::new(id);
+        let mut r = Rng::for_case(seed, 18, 8_000_000 + i);
+        close_under_fire(&mut r, &mut res);
+        rc.end(res);
+    }
+    for i in 0..rc.n(4, 16) {
+        let id = format!("competing-publishers:{}", i);
+        if !rc.mine(&id) {
+            continue;
+        }
+        rc.begin(&id);
+        let mut res = CaseResult::new(id);
+        let mut r = Rng::for_case(seed, 18, 7_000_000 + i);
+        competing_publishers(&mut r, &mut res);
+        rc.end(res);
+    }
     for i in 0..rc.n(4, 16) {
         let id = format!("fast-publisher:{}", i);
         if !rc.mine(&id) {
